@@ -83,6 +83,15 @@ func runLedgerMon(pid string, seed uint64, n int, out, stats string) {
 		if pid == "C26" || pid == "C04" {
 			g.Replay, g.Monitors, g.Malformed = true, false, false
 			g.ReplayKey = strings.ToLower(pid)
+			if i%2 == 1 {
+				// unbonds served from the waitlist (its own branch of the Unbond transaction) among the replayed transactions
+				withWaitlists(spec, r)
+				g.Weights = map[string]int{}
+				for _, k := range kinds {
+					g.Weights[k] = 1
+				}
+				g.Weights["unbond"], g.Weights["move"], g.Weights["delegate"] = 40, 6, 8
+			}
 		}
 		if pid == "C27" {
 			g.FeeRoute, g.Monitors, g.Malformed = true, false, false
